@@ -142,7 +142,7 @@ def stamping(rep, tier, rng):
         for _ in range(nops):
             t = rand_dt(rng)
             sc.append("clock %d %d %d %d %d %d %d" % t)
-            k = rng.below(7)
+            k = rng.below(9)
             if k == 0:
                 sc += ["write_all 1 %s" % hexs(b"x" * rng.range(1, 700))]; mo += ["write %d %d %d %d %d %d %d" % t]
             elif k == 1:
@@ -159,8 +159,16 @@ def stamping(rep, tier, rng):
                 sc += ["create_dir 0 %s 3" % hexs("sub"), "create_file 3 %s 4" % hexs("inner.txt"), "drop_file 4", "drop_dir 3"]
             elif k == 5:
                 sc += ["remove 0 %s" % hexs("other.bin")]
-            else:
+            elif k == 6:
                 sc += ["flush 1"]
+            else:
+                # clean remount: the next stamp write-back is the first device write of the new session
+                sc += ["drop_all", "unmount", "mount 1 %d lossy" % acc, "open_file 0 %s 1" % hexs(name)]
+                t2 = rand_dt(rng)
+                if k == 7:
+                    sc += ["set_modified 1 %d %d %d %d %d %d %d" % t2]; mo += ["setm %d %d %d %d %d %d %d" % t2]
+                else:
+                    sc += ["set_created 1 %d %d %d %d %d %d %d" % t2]; mo += ["setc %d %d %d %d %d %d %d" % t2]
             sc += ["drop_file 1", "list 0", "open_file 0 %s 1" % hexs(name)]
             mo += ["show"]
             checks.append((len(sc) - 2, len(mo) - 1, name))
